@@ -152,9 +152,12 @@ Section Search.
     end.
 End Search.
 
-(* lines 230-235: `if not matrix` / `root is None` early return; with find_all the list form [()] *)
-Definition degenerate_result (fa : bool) : result :=
-  if fa then {| r_sol := SMany [[]]; r_obj := 1; r_iters := 0; r_evals := 0; r_status := OPTIMAL |}
+(* `root is None` early return (_build_links returns None for `not matrix or not matrix[0]`):
+     if find_all: status = FEASIBLE if max_solutions and max_solutions <= 1 else OPTIMAL; Result([()], 1, 0, 0, status)
+     return Result((), 0, 0, 0) *)
+Definition degenerate_result (fa : bool) (ms : option Z) : result :=
+  if fa then {| r_sol := SMany [[]]; r_obj := 1; r_iters := 0; r_evals := 0;
+                r_status := if ms_hit ms 1 then FEASIBLE else OPTIMAL |}
   else {| r_sol := SOne []; r_obj := 0; r_iters := 0; r_evals := 0; r_status := OPTIMAL |}.
 
 Definition init_st : sst := {| iters := 0; covers := 0; sols := [] |}.
@@ -196,7 +199,7 @@ Definition degenerate (inp : input) : bool :=
 Definition fuel_of (inp : input) : nat := S (length (prim_cols inp)).
 
 Definition solve (inp : input) : outcome :=
-  if degenerate inp then Done (degenerate_result (find_all inp))
+  if degenerate inp then Done (degenerate_result (find_all inp) (max_solutions inp))
   else
     let rows := mk_rows (matrix inp) in
     if negb (rows_in_range (length (col_names inp)) rows) then IndexError
